@@ -274,7 +274,14 @@ fn hook_fn(info: &panic::PanicHookInfo<'_>) {
         let desc = crate::watchdog::current().0;
         let seq = SEQ_CRUMB.with(|c| c.try_borrow().map(|s| s.clone()).unwrap_or_default());
         let body = serde_json::json!({"panic": text, "doing": desc, "seq": seq});
-        let _ = std::fs::write(path, body.to_string());
+        // one file per thread, written under another name and renamed: several workers may panic at
+        // the same instant, and the process may be killed while one of them is still writing
+        let tid: String = format!("{:?}", std::thread::current().id()).chars().filter(|c| c.is_ascii_digit()).collect();
+        let fin = format!("{}.{}", path, tid);
+        let tmp = format!("{}.tmp", fin);
+        if std::fs::write(&tmp, body.to_string()).is_ok() {
+            let _ = std::fs::rename(&tmp, &fin);
+        }
     }
     LAST_PANIC.with(|p| *p.borrow_mut() = Some(text));
 }
